@@ -314,10 +314,76 @@ def check(repo: Repo, run: Run) -> None:
                     )
     run.floor("C01.M5", n5, 24)
 
+    # M6 ---------------------------------------------------------------
+    # a range-checked operator may only produce the *final* result: an intermediate that goes through the
+    # class's own checked operators (self / other, other * q, ...) is rejected when it leaves the range even
+    # though the exact final result fits (e.g. MIN % -1 computed as a - b * (a / b))
+    n6 = 0
+    for cname in ("IntType", "UintType"):
+        for key in ARITH_KEYS:
+            impl = impls[key]
+            if impl.kind != "operator":
+                continue
+            for dunder in filter(None, [impl.direct, impl.reflected]):
+                c = matrix.cell(repo, cname, dunder)
+                if not c.is_repo:
+                    continue
+                n6 += 1
+                bad = checked_intermediates(c.node, set(EXPECTED_RANGE))
+                run.ob("C01.M6", f"{cname}.{dunder}", not bad,
+                       f"{cname}.{dunder}: " + ("intermediate values are plain Python ints" if not bad else
+                                               f"`{bad[0]}` feeds the result of a range-checked {cname} operator into further arithmetic: the intermediate can overflow although the exact result fits"),
+                       ct.loc(c.node))
+    run.floor("C01.M6", n6, 20)
+
     # M4 ---------------------------------------------------------------
     from ..core import effects
 
     effects.check_conversion(repo, run, "C01.M4", ARITH_KEYS, ["IntType", "UintType", "DoubleType"])
+
+
+ARITH_OPS = (ast.Add, ast.Sub, ast.Mult, ast.Div, ast.FloorDiv, ast.Mod, ast.Pow)
+
+
+def checked_intermediates(fn: ast.FunctionDef, cel_classes) -> List[str]:
+    """Arithmetic BinOps one of whose operands is itself the result of an arithmetic BinOp on a
+    CEL-typed value (a parameter of the method, or IntType(...)/UintType(...))."""
+    params = {a.arg for a in fn.args.args}
+    cel_vars = set(params)
+    checked_vars: Set[str] = set()
+
+    def is_cel(e: ast.expr) -> bool:
+        e = strip_cast(e)
+        if isinstance(e, ast.Name):
+            return e.id in cel_vars
+        if isinstance(e, ast.Call):
+            return (dotted(e.func) or "").split(".")[-1] in cel_classes
+        if isinstance(e, ast.UnaryOp) and isinstance(e.op, (ast.USub, ast.UAdd)):
+            return is_cel(e.operand)
+        return is_checked(e)
+
+    def is_checked(e: ast.expr) -> bool:
+        e = strip_cast(e)
+        if isinstance(e, ast.Name):
+            return e.id in checked_vars
+        if isinstance(e, ast.BinOp) and isinstance(e.op, ARITH_OPS):
+            return is_cel(e.left) or is_cel(e.right)
+        if isinstance(e, ast.UnaryOp) and isinstance(e.op, ast.USub):
+            return is_cel(e.operand) and not isinstance(strip_cast(e.operand), ast.Constant)
+        return False
+
+    bad: List[str] = []
+    for st in ast.walk(fn):
+        if isinstance(st, ast.Assign) and len(st.targets) == 1 and isinstance(st.targets[0], ast.Name):
+            if is_checked(st.value):
+                checked_vars.add(st.targets[0].id)
+            elif is_cel(st.value):
+                cel_vars.add(st.targets[0].id)
+    for n in ast.walk(fn):
+        if isinstance(n, ast.BinOp) and isinstance(n.op, ARITH_OPS):
+            if is_checked(n.left) or is_checked(n.right):
+                bad.append(ast.unparse(n)[:80])
+    return bad
 
 
 def show_iv(ivs) -> str:
